@@ -1,5 +1,5 @@
 # replay of a bounded stand-in violation (C17/C02): re-run native/c17_decomp.py
 import sys
-print('bloch_messiah on one-squeezed (n=3, 2 unsqueezed modes): reconstruction 8.9e-16, orthogonal-symplectic structure error 0.83, diagonal error 5.4e-16')
+print('graph_embed on disconnected make_traceless (n=2, mean photon 0.5): U tanh(r) U^T proportional to the embedded matrix: True; mean photon per mode 0.14286')
 print('REPLAY-VIOLATION')
 sys.exit(1)
